@@ -123,6 +123,19 @@ def check_property(pid, tier, seed):
     known = load_known()
     for cid, line in case_by_id.items():
         it = impl.get(cid); mt = model.get(cid)
+        kind = line.split(' ')[0]
+        if kind in getattr(prop, 'impl_only_kinds', ()):
+            v = prop.monitor(line, it or '', mline_by_id.get(cid, line))
+            if v: monitor_hits.append((cid, v, it))
+            nontrivial.add(hash(line))
+            continue
+        if kind in getattr(prop, 'model_only_kinds', ()):
+            v = prop.model_monitor(line, mt or '')
+            if v: mismatches.append((cid, 'model-vs-independent-spec: ' + v, it, mt))
+            nontrivial.add(hash(line))
+            continue
+        if it is not None and it.startswith('bad-case'):
+            continue        # the generator produced a case the API cannot even be called with
         if it is None or mt is None:
             mismatches.append((cid, 'missing-trace', it, mt)); continue
         pi, pm = prop.project(line, it), prop.project(line, mt)
@@ -141,6 +154,10 @@ def check_property(pid, tier, seed):
         key = prop.nontrivial_key(line, it)
         if key is not None:
             nontrivial.add(key)
+    if hasattr(prop, 'group_monitor'):
+        gv = prop.group_monitor(case_by_id, impl)
+        if gv:
+            monitor_hits.append((gv[1], gv[0], impl.get(gv[1], '')))
     cov['evaluations'] = len(cases)
     cov['distinct_nontrivial'] = len(nontrivial)
     cov['rule'] = prop.rule
